@@ -43,19 +43,20 @@ def compare(case, go, m):
         g = {t for t in g if not t.startswith("duplicateProperties")}
         l = {t for t in l if not t.startswith("duplicateProperties")}
     g, l = overlap_norm(g), overlap_norm(l)
-    if g != l:
-        return {"what": "rule messages of the implementation and of the model differ (tie T2 broken)",
-                "only_go": sorted(g - l)[:6], "only_model": sorted(l - g)[:6], "tie": True}, g
-    # document-level statement: accepted <=> every rule holds (documents whose other stages are clean)
+    # document-level statement: accepted <=> every rule holds (documents whose other stages are clean). The model's verdict
+    # stands for the specification here (theorem C03_rules: the model reports nothing exactly when every rule holds), so a
+    # disagreement on such a document is a failing input of the property itself, whatever the state of the tie.
     clean_other = case.get("flavour") in (0, 1) and not case.get("exotic") and (go.get("schemaPass") or {}).get("valid")
     if clean_other:
         for run in (cont[0], stop[0] if stop else cont[0]):
-            if bool(l) == bool(run.get("valid")):
-                other = [e for e in run.get("errors", []) if S.classify(e) is None]
-                if l and run.get("valid"):
-                    return {"what": "a documented rule is broken but validation reports no error (continue=%s)" % run["cont"], "model_rules": sorted(l)[:6]}, g
-                if not l and not run.get("valid") and not other:
-                    return {"what": "every documented rule holds but validation reports a rule error", "go_errors": run["errors"][:6]}, g
+            other = [e for e in run.get("errors", []) if S.classify(e) is None]
+            if l and run.get("valid"):
+                return {"what": "a documented rule is broken but validation reports no error (continue=%s)" % run["cont"], "model_rules": sorted(l)[:6]}, g
+            if not l and not run.get("valid") and not other:
+                return {"what": "every documented rule holds but validation reports a rule error", "go_errors": run["errors"][:6]}, g
+    if g != l:
+        return {"what": "rule messages of the implementation and of the model differ (tie T2 broken)",
+                "only_go": sorted(g - l)[:6], "only_model": sorted(l - g)[:6], "tie": True}, g
     return None, g
 
 
